@@ -179,7 +179,86 @@ def oracle_collect(ctx: Ctx, case):
     ctx.count(nontrivial=nontrivial, classes=sorted(allflags) + [combo], key=[combo, sorted(allflags), spec["time_limit"], case["key"] % 128])
 
 
-PARTS = {"collect": oracle_collect}
+# ----------------------------------------------------------------------------- built-in environments
+@functools.lru_cache(maxsize=None)
+def _classic_algo(name, E):
+    if name == "CartPole":
+        return DQN(buffer_size=64, learning_starts=3, num_envs=E, num_steps=3, batch_size=2, learning_rate=0.0, target_update_interval=2)
+    return SAC(buffer_size=64, learning_starts=3, num_envs=E, num_steps=3, batch_size=2, policy_lr=0.0, q_lr=1e-3, q_width_size=8, q_depth=1)
+
+
+def oracle_classic_collect(ctx: Ctx, case):
+    """Same storage law on CartPole (DQN, MLPQPolicy) / Pendulum (SAC, MLPSACPolicy) under a TimeLimit; the
+    oracle is the environment's own functional API applied to the state each stored row started from."""
+    from checks.c01_step_reset import _classic_state, classic_fresh
+    from checks.c04_onpolicy_rollout import _classic_tl, _env_parts
+    from lerax.policy import MLPQPolicy, MLPSACPolicy
+
+    name, E, N = case["env"], case["E"], case["time_limit"]
+    env = eqx.tree_at(lambda e: e.max_episode_steps, _classic_tl(name), jnp.asarray(N, dtype=int))
+    if name == "CartPole":
+        policy = MLPQPolicy(env, epsilon=0.5, width_size=8, depth=1, key=jr.key(case["pkey"]))
+    else:
+        policy = MLPSACPolicy(env, feature_size=4, width_size=8, depth=1, key=jr.key(case["pkey"]))
+    algo = eqx.tree_at(lambda a: a.gamma, _classic_algo(name, E), jnp.asarray(0.9))
+    cb = StashCallback(())
+    fresh = classic_fresh(name)
+    tags = {"algo": type(algo).__name__, "env": name}
+    cap = 64 // E if E > 1 else 64
+    state = _reset(algo, env, policy, jr.key(case["key"]), cb)
+    L, S = 3, 3
+    flags = set()
+
+    def decode(o):
+        o = np.asarray(o, np.float64)
+        y = o if name == "CartPole" else np.array([np.arctan2(o[1], o[0]), o[2]])
+        return y.tolist()
+
+    carried = [None] * E
+    total = 0
+    for k in range(case["iters"] + 1):
+        if k > 0:
+            state = _iterate(algo, state, jr.key(case["key"] + k), cb)
+        n_from, n_to = (0, L) if k == 0 else (L + (k - 1) * S, L + k * S)
+        buf = state.step_state.buffer
+        pos = np.asarray(buf.position).reshape(-1)
+        ctx.check(bool(np.all(pos == n_to)), "C05/per-env-insertion-count", tags=tags, expected=n_to, observed=pos.tolist())
+        for e in range(E):
+            pick = (lambda x: np.asarray(x)) if E == 1 else (lambda x, e=e: np.asarray(x)[e])
+            obs, nobs, acts = pick(buf.observations), pick(buf.next_observations), pick(buf.actions)
+            rews, dones, touts = pick(buf.rewards), pick(buf.dones), pick(buf.timeouts)
+            ss = state.step_state if E == 1 else jax.tree.map(lambda x, e=e: x[e], state.step_state)
+            st_ = carried[e]
+            if st_ is None:
+                st_ = _classic_state(env, name, decode(obs[0]), 0.0, 0)
+                ctx.check(fresh(st_) is None, "C05/first-state-not-initial", tags=tags, why=fresh(st_))
+            for n in range(n_from, n_to):
+                a = acts[n]
+                ca = np.clip(a, np.asarray(env.action_space.low), np.asarray(env.action_space.high)) if name != "CartPole" else a
+                nxt, o_t, o_next, r, term, trunc = _env_parts(env, st_, jnp.asarray(ca, dtype=acts.dtype))
+                ctx.close(obs[n], o_t, "C05/observation-not-the-one-acted-on", tags=tags, rtol=1e-9, atol=1e-9, n=n)
+                ctx.close(nobs[n], o_next, "C05/next-observation-not-pre-reset-successor", tags=tags, rtol=1e-9, atol=1e-9, n=n, done=bool(term) or bool(trunc))
+                ctx.close(rews[n], r, "C05/reward-not-of-executed-transition", tags=tags, rtol=1e-9, atol=1e-9, n=n)
+                term, trunc = bool(term), bool(trunc)
+                ctx.check(bool(dones[n]) == (term or trunc), "C05/done-flag", tags=tags, n=n)
+                ctx.check(bool(touts[n]) == (trunc and not term), "C05/timeout-flag", tags=tags, n=n, term=term, trunc=trunc)
+                flags |= {"both"} if term and trunc else {"term"} if term else {"timeout"} if trunc else set()
+                if term or trunc:
+                    if n + 1 < n_to:
+                        st_ = _classic_state(env, name, decode(obs[n + 1]), 0.0, 0)
+                    else:
+                        st_ = ss.env_state
+                    ctx.check(fresh(st_) is None, "C05/post-done-state-not-initial", tags=tags, n=n, why=fresh(st_))
+                else:
+                    st_ = nxt
+            from checks.c01_step_reset import tree_close
+
+            ctx.check(tree_close(ss.env_state, st_, 1e-9, 1e-9), "C05/carried-env-state", tags=tags)
+            carried[e] = ss.env_state
+    ctx.count(nontrivial=bool(flags), classes=sorted(flags) + [name, f"E={E}", "classic"], key=[name, E, N, sorted(flags), case["key"] % 64])
+
+
+PARTS = {"collect": oracle_collect, "classic_collect": oracle_classic_collect}
 
 
 @st.composite
@@ -209,12 +288,19 @@ def cases(draw, combo, tl):
     return case
 
 
+@st.composite
+def classic_cases(draw, name, E):
+    return {"env": name, "E": E, "time_limit": draw(st.integers(1, 6)), "iters": draw(st.integers(1, 2)), "pkey": draw(st.integers(0, 2**31 - 2)), "key": draw(st.integers(0, 2**31 - 100))}
+
+
 def run(ctx: Ctx):
     ctx.rule = (
         "Finite MDP tables + TimeLimit, behaviour policies with counter state (Q-table with lerax's epsilon-greedy; deterministic "
         "action table with entries outside the Box bounds), (buffer_size, learning_starts, num_envs, num_steps) below and above "
         "per-env capacity -> real reset() (warm-up) and 1-3 iteration() calls of DQN/SAC; every newly stored slot of every "
         "per-env buffer is re-derived by the NumPy interpreter, insertion counts per env are checked after every call. "
+        "Part classic_collect: DQN(MLPQPolicy, eps 0.5) on CartPole and SAC(MLPSACPolicy) on Pendulum under TimeLimit 1..6; every "
+        "stored row is re-derived with the env's own observation/transition/reward/terminal/truncate from the state it started in. "
         "Non-trivial: a stored done row, a clipped action, or ring wrap-around; distinct by (combo, flags, N, key bucket)."
     )
     ctx.assumptions = ["vlib/mdp.py Interp is the reference semantics", "learning rate 0 keeps the behaviour policy fixed across iterations", "x64"]
@@ -224,6 +310,8 @@ def run(ctx: Ctx):
         if ctx.quick and combo in ("dqn-2env-ls0", "sac-2env"):
             continue
         ctx.run_given("collect", cases(combo, tl), oracle_collect, n)
+    for name, E in (("CartPole", 2), ("Pendulum", 1)) if ctx.quick else (("CartPole", 1), ("CartPole", 3), ("Pendulum", 1), ("Pendulum", 2)):
+        ctx.run_given("classic_collect", classic_cases(name, E), oracle_classic_collect, ctx.n(30, 500), shrink=False)
     ctx.require_fraction("collect", "done", 0.5)
     ctx.require_fraction("collect", "clip", 0.15)
     ctx.require_fraction("collect", "both", 0.05)
